@@ -22,6 +22,9 @@ def make_namespace():
     lib.add_class("Cls")
     ns = lib.add_namespace("ns")
     ns.add_class("Cls2")
+    # typedefs at library scope and inside the namespace
+    lib.add_declaration("typedef int Index")
+    ns.add_declaration("typedef long Offset")
     return lib
 
 
@@ -285,6 +288,46 @@ def template_shard(args):
     return out
 
 
+C_STRUCT_SHAPES = ["Pt %s", "Pt * %s", "const Pt * %s", "Pt * * %s", "const Pt * const %s", "Pt %s[3]", "Index %s", "const Index * %s"]
+
+
+def c_language_shard(args):
+    """A C library: the C counterpart of a struct (and of a typedef) the library declares is that type itself."""
+    from shroud import ast, declast, typemap
+
+    typemap.initialize()
+    lib = ast.LibraryNode(library="clib", language="c")
+    lib.add_declaration("struct Pt { int x; double y; };")
+    lib.add_declaration("typedef int Index")
+    out = []
+    for shape in C_STRUCT_SHAPES:
+        for site in ("variable", "parameter", "result"):
+            if site == "result" and "[" in shape:
+                continue
+            if site == "variable":
+                text = shape % "a"
+            elif site == "parameter":
+                text = "void f(%s, int n)" % (shape % "a")
+            else:
+                text = (shape % "f") + "(int n)"
+            rec = {"text": text + "  [language c]", "kind": "c-language", "must": "must", "err": None, "status": "ok", "cxx": None, "c": None}
+            try:
+                node = declast.check_decl(text, namespace=lib)
+                if site == "parameter":
+                    node = node.params[0]
+                if site == "result":
+                    rec["c"] = node.gen_arg_as_c(name="r_X", params=None) + "(int n)"
+                    rec["cexp"] = (shape % "o_X") + "(int n)"
+                else:
+                    rec["c"] = node.gen_arg_as_c(name="r_X")
+                    rec["cexp"] = shape % "o_X"
+                rec["orig"] = rec["cexp"]
+            except Exception as e:  # noqa
+                rec["err"] = "raised %s: %s" % (type(e).__name__, str(e)[:200])
+            out.append(rec)
+    return out
+
+
 def run(ctx):
     level = 2 if ctx.tier == "quick" else 3
     W = ctx.workers
@@ -293,6 +336,7 @@ def run(ctx):
     for part in isolate.pmap(parse_shard, [(level, s, nsh) for s in range(nsh)], W):
         recs.extend(part)
     recs.extend(isolate.call_in_child(template_shard, ((),), timeout=120).value)
+    recs.extend(isolate.call_in_child(c_language_shard, ((),), timeout=120).value)
     ctx.count(states=len(recs), transitions=len(recs), validated=len(recs))
     kinds = {}
     for i, r in enumerate(recs):
